@@ -11,6 +11,10 @@ class Unknown(Exception):
     pass
 
 
+class Crash(Unknown):
+    """The expression raises (TypeError ...) for this valuation: a fact about the guard, not an unrecognised term."""
+
+
 def ev(e, env):
     src = unparse(e)
     if src in env:
@@ -23,7 +27,7 @@ def ev(e, env):
         try:
             return {'max': max, 'min': min, 'abs': abs, 'bool': bool, 'int': int}[unparse(e.func)](*args)
         except (TypeError, ValueError) as ex:
-            raise Unknown('%s fails at run time: %s' % (src, ex))
+            raise Crash('%s fails at run time: %s' % (src, ex))
     if isinstance(e, ast.Constant):
         return e.value
     if isinstance(e, ast.BoolOp):
@@ -48,12 +52,15 @@ def ev(e, env):
             return -v
     if isinstance(e, ast.BinOp):
         a, b = ev(e.left, env), ev(e.right, env)
-        if isinstance(e.op, ast.Add):
-            return a + b
-        if isinstance(e.op, ast.Sub):
-            return a - b
-        if isinstance(e.op, ast.Mult):
-            return a * b
+        try:
+            if isinstance(e.op, ast.Add):
+                return a + b
+            if isinstance(e.op, ast.Sub):
+                return a - b
+            if isinstance(e.op, ast.Mult):
+                return a * b
+        except TypeError as ex:
+            raise Crash('%s fails at run time: %s' % (src, ex))
     if isinstance(e, ast.Compare) and len(e.ops) == 1:
         a, b, op = ev(e.left, env), ev(e.comparators[0], env), e.ops[0]
         table = {ast.Eq: lambda: a == b, ast.NotEq: lambda: a != b, ast.Lt: lambda: a < b, ast.LtE: lambda: a <= b,
@@ -64,7 +71,7 @@ def ev(e, env):
                 try:
                     return fn()
                 except TypeError as ex:
-                    raise Unknown('comparison fails at run time: %s (%s)' % (src, ex))
+                    raise Crash('comparison fails at run time: %s (%s)' % (src, ex))
     if isinstance(e, ast.Call) and unparse(e.func) == 'len' and len(e.args) == 1:
         v = ev(e.args[0], env)
         try:
